@@ -960,9 +960,47 @@ func (k *checker) ssets() {
 		func() bool { return refSubset(sortedKeys(keys1), sortedKeys(keys2)) })
 	boolCell("IsSupersetByKey", func() bool { return gA.IsSupersetByKey(gBview) }, func() bool { return iA.IsSupersetByKey(iB) },
 		func() bool { return refSubset(sortedKeys(keys2), sortedKeys(keys1)) })
+	// Add(keys): the keys the receiver already holds keep their streams (only new keys are added) - in
+	// both families; the value stored under a NEW key is not compared (the families differ there)
+	if len(K1) > 0 {
+		var addKeys []int
+		for kk := range K1 {
+			addKeys = append(addKeys, kk)
+		}
+		addKeys = append(addKeys, x, 90)
+		sort.Ints(addKeys)
+		ga := callSS(func() map[int][]int { r := gA.Add(addKeys...); return readG(r.Keys(), r.Get) })
+		ia := callSS(func() map[int][]int { return readI(iA.Add(toI(addKeys)...)) })
+		for _, f := range []fam{{"generic", ga}, {"interface{}", ia}} {
+			if f.a.panicked {
+				k.law("StreamSet.Add", f.n, false, "%s.Add(%v) panicked", showSS(K1, false), addKeys)
+				continue
+			}
+			for kk, want := range K1 {
+				got, ok := f.a.ss[kk]
+				k.law("StreamSet.Add", f.n, ok && eqInts(got, want), "%s.Add(%v): key %d, which the receiver already held, now holds %v (present=%v), want its stream %v", showSS(K1, false), addKeys, kk, got, ok, want)
+			}
+		}
+	}
 	// chained: the RESULT of one operation is the operand (either side) of a second one; the two
 	// families must still give the same answer (a result that merely looks right - e.g. one holding a
 	// typed-nil stream in the interface{} family - shows up here)
+	// a result belongs to the caller: storing something in it (Set is the documented in-place mutator) must
+	// not show up in any later result of the library (results must not be one shared object)
+	vlib.Try(func() {
+		gA.Intersection(nil).Set(97, fpgo.StreamFromArray([]int{1}))
+		gA.Intersection(gSS(map[int][]int{})).Set(97, fpgo.StreamFromArray([]int{1}))
+		gSS(map[int][]int{}).Intersection(gA).Set(97, fpgo.StreamFromArray([]int{1}))
+		gSS(map[int][]int{}).MinusStreams(gA).Set(97, fpgo.StreamFromArray([]int{1}))
+		gSS(map[int][]int{}).Union(nil).Set(97, fpgo.StreamFromArray([]int{1}))
+	})
+	vlib.Try(func() {
+		iA.Intersection(nil).Set(97, fpgo.StreamForInterface.FromArray(toI([]int{1})))
+		iA.Intersection(iSS(map[int][]int{})).Set(97, fpgo.StreamForInterface.FromArray(toI([]int{1})))
+		iSS(map[int][]int{}).Intersection(iA).Set(97, fpgo.StreamForInterface.FromArray(toI([]int{1})))
+		iSS(map[int][]int{}).MinusStreams(iA).Set(97, fpgo.StreamForInterface.FromArray(toI([]int{1})))
+		iSS(map[int][]int{}).Union(nil).Set(97, fpgo.StreamForInterface.FromArray(toI([]int{1})))
+	})
 	if !c.K2Nil {
 		type first struct {
 			n string
